@@ -29,6 +29,7 @@ import (
 
 type raceScenario struct {
 	impl, method string
+	variant      string // group / suite instance the scenario runs on (part of the finding key)
 	// prepare builds the shared objects and returns the concurrent operation; each call of op returns
 	// a canonical result string that must equal `want` (computed sequentially on separate copies).
 	prepare func() (op func() string, want string)
@@ -37,6 +38,7 @@ type raceScenario struct {
 type raceResult struct {
 	Impl       string `json:"impl"`
 	Method     string `json:"method"`
+	Variant    string `json:"variant"`
 	Calls      int    `json:"calls"`
 	Mismatches int    `json:"mismatches"`
 	Panics     int    `json:"panics"`
@@ -45,14 +47,14 @@ type raceResult struct {
 }
 
 func raceRun(sc raceScenario, goroutines, rounds int) raceResult {
-	res := raceResult{Impl: sc.impl, Method: sc.method}
+	res := raceResult{Impl: sc.impl, Method: sc.method, Variant: sc.variant}
 	var op func() string
 	var want string
 	if st := kc.Recover(func() string { op, want = sc.prepare(); return "" }); st != "" || op == nil {
 		res.Skipped = "prepare failed or unsupported"
 		return res
 	}
-	id := sc.impl + "|" + sc.method
+	id := sc.impl + "|" + sc.method + "|" + sc.variant
 	fmt.Fprintln(os.Stderr, "C20-BEGIN "+id)
 	var mism, pan int64
 	var sample atomic.Value
@@ -126,7 +128,7 @@ func racePointScenarios(g *groups.G) []raceScenario {
 	}
 	mkQ := func() kyber.Point { return G.Point().Add(G.Point().Mul(s3, base()), G.Point().Mul(s1, base())) }
 	sc := func(method string, f func(P, Q kyber.Point) string) raceScenario {
-		return raceScenario{g.Name, "Point." + method, func() (func() string, string) {
+		return raceScenario{g.Name, "Point." + method, g.Name, func() (func() string, string) {
 			P, Q := mk(), mkQ()
 			want := f(mk(), mkQ())
 			return func() string { return f(P, Q) }, want
@@ -154,7 +156,7 @@ func racePointScenarios(g *groups.G) []raceScenario {
 	if g.CanEmbed {
 		data := []byte("C20 shared data")
 		mkE := func() kyber.Point { return G.Point().Embed(data, kc.NewRng(99)) }
-		out = append(out, raceScenario{g.Name, "Point.Data", func() (func() string, string) {
+		out = append(out, raceScenario{g.Name, "Point.Data", g.Name, func() (func() string, string) {
 			P := mkE()
 			f := func(P kyber.Point) string {
 				d, err := P.Data()
@@ -181,7 +183,7 @@ func raceScalarScenarios(g *groups.G) []raceScenario {
 		return x, y
 	}
 	sc := func(method string, f func(x, y kyber.Scalar) string) raceScenario {
-		return raceScenario{g.Family, "Scalar." + method, func() (func() string, string) {
+		return raceScenario{g.Family, "Scalar." + method, g.Name, func() (func() string, string) {
 			x, y := mk()
 			wx, wy := mk()
 			want := f(wx, wy)
@@ -232,7 +234,7 @@ func raceSchemeScenarios() []raceScenario {
 			continue
 		}
 		out = append(out,
-			raceScenario{"suite", "Point/Scalar constructors", func() (func() string, string) {
+			raceScenario{"suite", "Point/Scalar constructors", gname, func() (func() string, string) {
 				return func() string {
 					p, x := s.Point(), s.Scalar()
 					p.Base()
@@ -240,7 +242,7 @@ func raceSchemeScenarios() []raceScenario {
 					return rmar(p) + rsmar(x)
 				}, rmar(s.Point().Base()) + rsmar(s.Scalar().One())
 			}},
-			raceScenario{"suite", "RandomStream.XORKeyStream", func() (func() string, string) {
+			raceScenario{"suite", "RandomStream.XORKeyStream", gname, func() (func() string, string) {
 				rs := s.RandomStream() // ONE shared stream object
 				return func() string {
 					b := make([]byte, 48)
@@ -254,11 +256,11 @@ func raceSchemeScenarios() []raceScenario {
 					return fmt.Sprint(len(b), z)
 				}, "48 false"
 			}},
-			raceScenario{"suite", "Hash", func() (func() string, string) {
+			raceScenario{"suite", "Hash", gname, func() (func() string, string) {
 				f := func() string { h := s.Hash(); h.Write(msg); return kc.HexB(h.Sum(nil)) }
 				return f, f()
 			}},
-			raceScenario{"suite", "XOF", func() (func() string, string) {
+			raceScenario{"suite", "XOF", gname, func() (func() string, string) {
 				f := func() string { x := s.XOF(msg); b := make([]byte, 32); x.Read(b); return kc.HexB(b) }
 				return f, f()
 			}},
@@ -274,13 +276,13 @@ func raceSchemeScenarios() []raceScenario {
 			P2 := p.G2.Group.Point().Add(p.G2.Group.Point().Mul(b, nil), p.G2.Group.Point().Mul(a, nil))
 			return P1, P2
 		}
-		out = append(out, raceScenario{"pairing", "Pair", func() (func() string, string) {
+		out = append(out, raceScenario{"pairing", "Pair", p.Name, func() (func() string, string) {
 			P1, P2 := mk()
 			w1, w2 := mk()
 			want := rmar(p.Suite.Pair(w1, w2))
 			return func() string { return rmar(p.Suite.Pair(P1, P2)) }, want
 		}})
-		out = append(out, raceScenario{"pairing", "ValidatePairing", func() (func() string, string) {
+		out = append(out, raceScenario{"pairing", "ValidatePairing", p.Name, func() (func() string, string) {
 			P1, P2 := mk()
 			// e(P1, B2) == e(B1, (a+b)·B2)
 			s := p.G1.Group.Scalar().Add(a, b)
@@ -291,7 +293,7 @@ func raceSchemeScenarios() []raceScenario {
 			return f, "true"
 		}})
 		// BLS with a shared public key and shared suite
-		out = append(out, raceScenario{"bls", "Verify", func() (func() string, string) {
+		out = append(out, raceScenario{"bls", "Verify", p.Name, func() (func() string, string) {
 			scheme := bls.NewSchemeOnG1(p.Suite)
 			priv, pub := scheme.NewKeyPair(kc.NewRng(23))
 			sig, err := scheme.Sign(priv, msg)
@@ -306,7 +308,7 @@ func raceSchemeScenarios() []raceScenario {
 	// BDN mask clone on a shared mask
 	if ps := groups.Pairings(); len(ps) > 0 {
 		p := ps[0]
-		out = append(out, raceScenario{"bdn", "Mask.Clone", func() (func() string, string) {
+		out = append(out, raceScenario{"bdn", "Mask.Clone", p.Name, func() (func() string, string) {
 			var pubs []kyber.Point
 			for i := 0; i < 5; i++ {
 				pubs = append(pubs, p.G2.Group.Point().Mul(p.G2.Group.Scalar().Pick(kc.NewRng(uint64(30+i))), nil))
@@ -330,7 +332,7 @@ func raceSchemeScenarios() []raceScenario {
 		if g == nil {
 			continue
 		}
-		out = append(out, raceScenario{"schnorr", "Verify", func() (func() string, string) {
+		out = append(out, raceScenario{"schnorr", "Verify", gname, func() (func() string, string) {
 			suite := &decSuite{Group: g.Group, rnd: kc.NewRng(24)}
 			priv := g.Group.Scalar().Pick(kc.NewRng(25))
 			// the shared public key is a sum: not normalised
@@ -342,7 +344,7 @@ func raceSchemeScenarios() []raceScenario {
 			return func() string { return fmt.Sprint(schnorr.Verify(g.Group, pub, msg, sig) == nil) }, "true"
 		}})
 	}
-	out = append(out, raceScenario{"eddsa", "Verify", func() (func() string, string) {
+	out = append(out, raceScenario{"eddsa", "Verify", "ed25519", func() (func() string, string) {
 		e := eddsa.NewEdDSA(kc.NewRng(26))
 		sig, err := e.Sign(msg)
 		if err != nil {
@@ -355,7 +357,7 @@ func raceSchemeScenarios() []raceScenario {
 		if g == nil {
 			continue
 		}
-		out = append(out, raceScenario{"cosi", "Verify", func() (func() string, string) {
+		out = append(out, raceScenario{"cosi", "Verify", gname, func() (func() string, string) {
 			suite := &decSuite{Group: g.Group, rnd: kc.NewRng(27)}
 			n := 3
 			privs := make([]kyber.Scalar, n)
@@ -405,19 +407,19 @@ func raceSchemeScenarios() []raceScenario {
 			return pri, pri.Commit(nil)
 		}
 		out = append(out,
-			raceScenario{"share", "PubPoly.Eval", func() (func() string, string) {
+			raceScenario{"share", "PubPoly.Eval", gname, func() (func() string, string) {
 				_, pub := mkPoly()
 				_, w := mkPoly()
 				f := func(p *share.PubPoly) string { return rmar(p.Eval(2).V) }
 				want := f(w)
 				return func() string { return f(pub) }, want
 			}},
-			raceScenario{"share", "PubPoly.Check", func() (func() string, string) {
+			raceScenario{"share", "PubPoly.Check", gname, func() (func() string, string) {
 				pri, pub := mkPoly()
 				sh := pri.Eval(1)
 				return func() string { return fmt.Sprint(pub.Check(sh)) }, "true"
 			}},
-			raceScenario{"share", "PubPoly.Commit", func() (func() string, string) {
+			raceScenario{"share", "PubPoly.Commit", gname, func() (func() string, string) {
 				_, pub := mkPoly()
 				_, w := mkPoly()
 				return func() string { return rmar(pub.Commit()) }, rmar(w.Commit())
@@ -430,7 +432,7 @@ func raceSchemeScenarios() []raceScenario {
 		if g == nil {
 			continue
 		}
-		out = append(out, raceScenario{"proof", "HashVerify", func() (func() string, string) {
+		out = append(out, raceScenario{"proof", "HashVerify", gname, func() (func() string, string) {
 			suite := &decSuite{Group: g.Group, rnd: kc.NewRng(29)}
 			x := g.Group.Scalar().Pick(kc.NewRng(31))
 			B := g.Group.Point().Base()
